@@ -48,6 +48,12 @@ func init() {
 			c.guard("C01.6", func() { ruleHandlerExactlyOnce(c, "C01.6") })
 			c.guard("C01.7", func() { rulePayloadProvenance(c, "C01.7") })
 			c.guard("C01.8", func() { ruleHandlerGate(c, "C01.8") })
+			c.guard("C01.9", func() {
+				// the shipped topologies and transports hand the very envelope on (rules shared with C16, C18, C19)
+				ruleTransportPassThrough(c, "C01.9")
+				ruleProxyForwardsSameEnvelopeOnce(c, "C01.9")
+				ruleDemuxRouting(c, "C01.9", "C01.9")
+			})
 		},
 	})
 }
@@ -77,6 +83,7 @@ func init() {
 				ruleNoDoubleClose(c, "C02.6", func(d string) bool { return d == "rCh" })
 			})
 			c.guard("C02.7", func() { ruleHalfCloseAndFinalStatus(c, "C02.7") })
+			c.guard("C02.8", func() { ruleTransportPassThrough(c, "C02.8") })
 		},
 	})
 	register(&propSpec{
@@ -147,6 +154,7 @@ func init() {
 			c.guard("C06.6", func() { ruleTrailerBeforeUnregister(c, "C06.6") })
 			c.guard("C06.7", func() { ruleUnknownStream(c, "C06.7") })
 			c.guard("C06.8", func() { ruleUnaryReplyComplete(c, "C06.8") })
+			c.guard("C06.9", func() { ruleHalfCloseAndFinalStatus(c, "C06.9") })
 		},
 	})
 }
@@ -264,6 +272,14 @@ func init() {
 			c.guard("C13.8", func() {
 				ruleNoBlockUnderRegistryLock(c, "C13.8", func(k string) bool { return k == muxLock })
 			})
+			c.guard("C13.9", func() {
+				// "once the connection is closed every call has terminated": the failure is always published and
+				// every waiter observes it (rules shared with C09)
+				ruleFailurePublication(c, "C13.9")
+				ruleReadLoopExitPublished(c, "C13.9")
+				ruleClosedChannelMeansError(c, "C13.9")
+				ruleTerminalErrorIsStatus(c, "C13.9")
+			})
 		},
 	})
 }
@@ -283,6 +299,11 @@ func init() {
 			c.guard("C14.3", func() { ruleCancelNotDropped(c, "C14.3") })
 			c.guard("C14.4", func() { rulePerRPCGoroutinesCanExit(c, "C14.4") })
 			c.guard("C14.5", func() { ruleQueuesDieWithRegistration(c, "C14.5") })
+			c.guard("C14.6", func() {
+				// the "deadline" outcome releases the server side only if the deadline reaches the handler
+				ruleTimeoutTables(c, "C14.6", "C14.6")
+				ruleDeadlineIffDeadline(c, "C14.6")
+			})
 		},
 	})
 	register(&propSpec{
@@ -308,6 +329,10 @@ func init() {
 			c.guard("C16.4", func() { ruleReturnRoute(c, "C16.4", nil) })
 			c.guard("C16.5", func() { ruleProxyOrder(c, "C16.5"); ruleFreshPeerQueue(c, "C16.5") })
 			c.guard("C16.6", func() { ruleProxyNoDiscard(c, "C16.6") })
+			c.guard("C16.7", func() {
+				// the peer table keeps pointing at the live connection of a name
+				ruleRemovalIdentityChecked(c, "C16.7")
+			})
 		},
 	})
 }
